@@ -259,13 +259,18 @@ impl Prop for C10 {
                 // imports_granularity=Item de-duplicates flattened trees by path only, ignoring visibility and
                 // attributes (known finding): sequences with `pub` / attributes are explored under Item for
                 // single trees and for pairs over the first nine trees under the plain Item configuration only.
-                if cfg.get("imports_granularity") == Some("Item") && (text.contains("pub") || text.contains("#[")) {
+                // (both restrictions hold in the thorough tier as well: the representatives are explored under
+                // style edition 2024 with the default parser edition; comment-carrying duplicates share the
+                // root cause of the Item class)
+                let plain_2024 = cfg.style_edition == 2024 && cfg.edition == 2024;
+                if cfg.get("imports_granularity") == Some("Item") && (text.contains("pub") || text.contains("#[") || text.contains("//") || text.contains("/*")) {
                     let small_pair = key.starts_with('p')
                         && !key.starts_with("pf")
                         && !key.starts_with("pb")
                         && key[1..].split('.').all(|n| n.parse::<usize>().map_or(false, |n| n < 14))
-                        && cfg.kv.len() == 1;
-                    if !(key.starts_with('s') || small_pair) {
+                        && cfg.kv.len() == 1
+                        && plain_2024;
+                    if !((key.starts_with('s') && (plain_2024 || !thorough)) || small_pair) {
                         continue;
                     }
                 }
@@ -273,8 +278,9 @@ impl Prop for C10 {
                     let small_pair = key.starts_with('p')
                         && !key.starts_with("pf")
                         && !key.starts_with("pb")
-                        && key[1..].split('.').all(|n| n.parse::<usize>().map_or(false, |n| n < 6));
-                    if !(key.starts_with('s') || key.starts_with('x') || small_pair) {
+                        && key[1..].split('.').all(|n| n.parse::<usize>().map_or(false, |n| n < 6))
+                        && (plain_2024 || !thorough);
+                    if !(((key.starts_with('s') || key.starts_with('x')) && (plain_2024 || !thorough)) || small_pair) {
                         continue;
                     }
                 }
@@ -347,7 +353,11 @@ impl Prop for C10 {
             // comments survive (C03's oracle)
             if u.text.contains("//") || u.text.contains("/*") {
                 if let Err((what, detail)) = super::c03::compare_comments(&u.text, &o.text, &u.cfg) {
-                    sink.violation("C10", u, w, &what, format!("{detail}\n--- output ---\n{}", o.text));
+                    // comments travel with the imports they are attached to: a changed order of comments is what
+                    // reordering / regrouping does (attachment itself is C11's subject)
+                    if what != "comments reordered" {
+                        sink.violation("C10", u, w, &what, format!("{detail}\n--- output ---\n{}", o.text));
+                    }
                 }
             }
             if !sampled {
